@@ -269,16 +269,27 @@ impl C10 {
                             next.map(|n| n - target + 1).unwrap_or(0x2001)
                         }
                         6 => cur.map(|a| a.length + 0x1000).unwrap_or(0x1000),
+                        // sizes no host can allocate (beyond any address space): the request may collide with nothing and
+                        // still has to fail cleanly, leaving the area exactly as it was
+                        7 if rng.below(4) == 0 => *rng.pick(&[1u64 << 56, 0x7000_0000_0000_0000, 1u64 << 62]),
                         _ => rng.range(1, 0x6000),
                     };
-                    if new_size > 0x40_0000 {
+                    let unallocatable = new_size >= 1u64 << 56;
+                    if new_size > 0x40_0000 && !unallocatable {
                         continue;
                     }
                     desc = format!("mem_resize_section({:#x}, {:#x})", target, new_size);
                     let res = call(|| ax.mem_resize_section(target, new_size));
                     let collides = prev.iter().any(|a| a.start != target && overlaps(target, new_size, a)) || target as u128 + new_size as u128 > 1u128 << 64;
                     let should_succeed = cur.is_some() && !collides;
-                    if res.is_panic() {
+                    if unallocatable {
+                        if res.is_panic() {
+                            problem = Some((format!("panic:{}", res.panic_key()), res.describe()));
+                        } else if res.is_ok() {
+                            problem = Some(("unallocatable-resize-succeeded".into(), res.describe()));
+                        }
+                        expect = Plain::Unchanged;
+                    } else if res.is_panic() {
                         problem = Some((format!("panic:{}", res.panic_key()), res.describe()));
                         expect = Plain::Unchanged;
                     } else if res.is_ok() != should_succeed {
